@@ -21,7 +21,12 @@ fn handle(line: &str) -> String {
         "pk" => pk::run(&args),
         "st" => st::run(&args),
         "T" | "V" => "decl".into(),
-        "mq" => std::panic::catch_unwind(|| mq::run(&args)).unwrap_or_else(|_| "panic".into()),
+        "mq" => std::panic::catch_unwind(|| mq::run(&args)).unwrap_or_else(|_| {
+            // where and why: lets a known finding be told apart from any other panic of the client
+            let m = LAST_PANIC.with(|p| p.borrow().clone());
+            let m: String = m.chars().map(|c| if c.is_whitespace() { '_' } else { c }).take(200).collect();
+            format!("panic {m}")
+        }),
         "tv" => match args.as_slice() {
             [tid, state, rest @ ..] => match (tid.parse::<usize>(), state.parse::<usize>()) {
                 (Ok(tid), Ok(state)) => std::panic::catch_unwind(std::panic::AssertUnwindSafe(|| gen_types::dispatch_tv(tid, state, rest)))
@@ -42,10 +47,23 @@ fn handle(line: &str) -> String {
     format!("{id} {out}")
 }
 
+thread_local! {
+    static LAST_PANIC: std::cell::RefCell<String> = const { std::cell::RefCell::new(String::new()) };
+}
+
 fn main() {
     // panics are caught per case and reported as an outcome; keep stderr quiet
     if std::env::var_os("VERIF_SHOW_PANIC").is_none() {
-        std::panic::set_hook(Box::new(|_| {}));
+        std::panic::set_hook(Box::new(|info| {
+            let loc = info.location().map(|l| format!("{}:{}", l.file().rsplit('/').next().unwrap_or(""), l.line())).unwrap_or_default();
+            let msg = info
+                .payload()
+                .downcast_ref::<String>()
+                .cloned()
+                .or_else(|| info.payload().downcast_ref::<&str>().map(|s| s.to_string()))
+                .unwrap_or_default();
+            LAST_PANIC.with(|p| *p.borrow_mut() = format!("{loc} {msg}"));
+        }));
     }
     let stdin = std::io::stdin();
     let stdout = std::io::stdout();
